@@ -1,5 +1,6 @@
 /* TOK unit 3: each scanner function on an arbitrary string of at most LEAFLEN
- * characters placed at an arbitrary offset >= 1 of a FILTERED_STR_LEN buffer
+ * characters placed at offset 1 or flush against the end (LEAF_ANY_OFFSET: at
+ * an arbitrary offset >= 1) of a FILTERED_STR_LEN buffer
  * (the way operand_tok hands operands to them), with every CBMC memory-safety,
  * overflow and unwinding check enabled.  Postconditions that callers rely on
  * are asserted too. */
@@ -21,6 +22,14 @@ static char arr[FILTERED_STR_LEN];
 void harness(void) {
   unsigned long off = IN(0), len = IN(1), pos = IN(2);
   ASSUME(len <= LEAFLEN && off >= 1 && off < FILTERED_STR_LEN && off + len < FILTERED_STR_LEN && pos < NUM_OF_OPD);
+#ifndef LEAF_ANY_OFFSET
+  /* two placements decide memory safety for every placement: directly after
+   * the first byte of the buffer (a read of s[-k], k >= 2, leaves the array)
+   * and flush against its end (a read beyond the terminator leaves the array);
+   * a placement in between is strictly more permissive than both.  The
+   * thorough tier also runs the arbitrary-offset version where it finishes. */
+  ASSUME(off == 1 || off + len == FILTERED_STR_LEN - 1);
+#endif
   for (int i = 0; i < FILTERED_STR_LEN; i++) {
     unsigned long b = IN(4 + i);
     ASSUME(b <= 0x7e && b != 0);          /* the filter passes printable ASCII only */
@@ -59,10 +68,16 @@ void harness(void) {
   ASSUME(len >= 1 && s[0] != ' ');
   __CPROVER_file_local_tokenizer_c_imm_tok(&ins, s);
 #elif defined(T_INSTRKEY)
-  /* the mnemonic lookup on an arbitrary token: the filter guarantees a first
-   * character in 'A'..'z' that is not an upper-case letter (it lower-cases) */
+  /* the mnemonic lookup on an arbitrary token whose first character is the
+   * constant FIRST (one query per character the filter can deliver at the start
+   * of a line: 0x5b..0x7a, i.e. '['..'z'; it lower-cases 'A'..'Z' and skips
+   * everything else in its BEGIN state).  With the first character constant the
+   * table walk starts at a constant row, so the walk itself is concrete and the
+   * string comparisons carry the symbolic rest of the token. */
+#ifndef FIRST
+#define FIRST 'a'
+#endif
   ASSUME(len >= 1 && len <= 12);
-  ASSUME(s[0] >= 'A' && s[0] <= 'z' && !(s[0] >= 'A' && s[0] <= 'Z'));
   {
     static uint8_t b[32];
     assemblyline_t al = asm_create_instance(b, 32);
@@ -71,6 +86,7 @@ void harness(void) {
     ASSUME(lay <= 40);
     char name[INSTRUCTION_CHAR_LEN];
     for (int i = 0; i < INSTRUCTION_CHAR_LEN; i++) name[i] = (unsigned long)i < len ? s[i] : 0;
+    name[0] = (char)FIRST;
     int key = str_to_instr_key(name, (operand_format)lay);
     CHECK(key == INSTR_ERROR || key >= 3, "lookup result is an error or a table row");
   }
